@@ -299,6 +299,7 @@ pub fn worker(wi: usize, wn: usize, tier: &str) {
     let rt = tokio::runtime::Builder::new_multi_thread().worker_threads(1).max_blocking_threads(4).enable_all().build().unwrap();
     let alpha = alphabet();
     let mut st = Stats::default();
+    let mut ns_sequences = 0u64;
     let metrics: Vec<&str> = if tier == "thorough" { vec!["euclidean", "cosine"] } else { vec!["euclidean"] };
     let mut idx = 0usize;
     for m in metrics {
@@ -340,6 +341,21 @@ pub fn worker(wi: usize, wn: usize, tier: &str) {
             let mut seq = prefix.clone();
             seq.extend(s.iter().map(|&i| alpha[i].clone()));
             check_sequence(&rt, &c, &seq, &mut memo, &mut st);
+        }
+    }
+    // namespace clause (one tenant, reference model of document namespaces)
+    {
+        let na = ns_alphabet();
+        let nd = if tier == "thorough" { 4 } else { 3 };
+        let c = cfg("euclidean");
+        for (si, s) in sequences(na.len(), nd, &[]).into_iter().enumerate() {
+            if si % wn != wi {
+                continue;
+            }
+            let seq: Vec<Rpc> = s.iter().map(|&i| na[i].clone()).collect();
+            let before = st.sequences;
+            ns_check_sequence(&rt, &c, &seq, &mut st);
+            ns_sequences += st.sequences - before;
         }
     }
     // tenant index mapping: every sequence of up to 3 server starts over a family of API-key
@@ -396,8 +412,168 @@ pub fn worker(wi: usize, wn: usize, tier: &str) {
     if s2 == 200 {
         st.viol.push(("C10|usage-served-without-requester".into(), json!({"status": s2})));
     }
-    vcore::par::worker_emit(&json!({"sequences":st.sequences,"calls":st.calls,"projections":st.projections,"compared":st.compared,"interfering":st.interfering_sequences,"tie_swaps":st.tie_swaps,
+    vcore::par::worker_emit(&json!({"ns_sequences":ns_sequences,"sequences":st.sequences,"calls":st.calls,"projections":st.projections,"compared":st.compared,"interfering":st.interfering_sequences,"tie_swaps":st.tie_swaps,
         "states":st.states.iter().collect::<Vec<_>>(),"violations":st.viol.to_json()}));
+}
+
+
+// ------------------------------------------------------------------------------------------
+// Namespace clause: "The server-owned tenant and namespace metadata keys can be neither set nor
+// seen by clients, a namespace selector never matches documents of another namespace."
+// One tenant, every sequence over a write alphabet that moves documents between namespaces,
+// spoofs the reserved keys through every write RPC, and uses selectors on updates and deletes;
+// after every step the full selector x id grid is probed against a reference model.
+// ------------------------------------------------------------------------------------------
+pub fn ns_alphabet() -> Vec<Rpc> {
+    let t = 0usize;
+    let v1 = [1.0f32, 0.0];
+    let v2 = [0.0f32, 1.0];
+    let kv = |k: &str, v: &str| (k.to_string(), v.to_string());
+    let it = |id: u64, v: [f32; 2], ns: &str, spoof: Option<&str>| {
+        let mut m = vec![kv("k", "a")];
+        if let Some(sp) = spoof {
+            m.push(kv("__namespace__", sp));
+            m.push(kv("__tenant_idx__", "2"));
+        }
+        Item { id, v: v.to_vec(), m, ns: ns.into() }
+    };
+    vec![
+        Rpc::Insert { t, item: it(1, v1, "", None) },
+        Rpc::Insert { t, item: it(1, v2, "n", Some("m")) },
+        Rpc::Insert { t, item: it(2, v1, "m", None) },
+        Rpc::Insert { t, item: it(2, v2, "", Some("n")) },
+        Rpc::BulkInsert { t, items: vec![it(1, v1, "", Some("n")), it(2, v2, "n", None)] },
+        Rpc::BulkLoad { t, items: vec![it(2, v2, "n", Some("m")), it(1, v1, "", None)] },
+        Rpc::UpdateMetadata { t, id: 1, m: vec![kv("__namespace__", "n"), kv("u", "1")], merge: true, ns: "".into() },
+        Rpc::UpdateMetadata { t, id: 1, m: vec![kv("__namespace__", "m"), kv("k", "z")], merge: false, ns: "".into() },
+        Rpc::UpdateMetadata { t, id: 2, m: vec![], merge: false, ns: "".into() },
+        Rpc::UpdateMetadata { t, id: 2, m: vec![kv("__namespace__", "n")], merge: false, ns: "".into() },
+        Rpc::UpdateMetadata { t, id: 1, m: vec![kv("w", "1")], merge: true, ns: "n".into() },
+        Rpc::Delete { t, id: 1, ns: "n".into() },
+        Rpc::Delete { t, id: 2, ns: "".into() },
+        Rpc::BatchDeleteIds { t, ids: vec![1, 2, 1], ns: "m".into() },
+        Rpc::BatchDeleteFilter { t, flt: Flt::Not(Box::new(Flt::Exact("k".into(), "zzz".into()))), ns: "n".into() },
+        Rpc::Flush { t },
+    ]
+}
+
+type NsModel = BTreeMap<u64, (String, BTreeMap<String, String>)>;
+
+fn ns_apply(model: &mut NsModel, r: &Rpc) {
+    let user = |m: &Vec<(String, String)>| -> BTreeMap<String, String> { m.iter().filter(|(k, _)| !RESERVED.contains(&k.as_str())).cloned().collect() };
+    let sel = |ns: &str, doc_ns: &str| ns.is_empty() || ns == doc_ns;
+    match r {
+        Rpc::Insert { item, .. } => {
+            model.insert(item.id, (item.ns.clone(), user(&item.m)));
+        }
+        Rpc::BulkInsert { items, .. } | Rpc::BulkLoad { items, .. } => {
+            for item in items {
+                model.insert(item.id, (item.ns.clone(), user(&item.m)));
+            }
+        }
+        Rpc::UpdateMetadata { id, m, merge, ns, .. } => {
+            if let Some((doc_ns, meta)) = model.get_mut(id) {
+                if sel(ns, doc_ns) {
+                    if *merge {
+                        meta.extend(user(m));
+                    } else {
+                        *meta = user(m);
+                    }
+                }
+            }
+        }
+        Rpc::Delete { id, ns, .. } => {
+            if model.get(id).map(|(d, _)| sel(ns, d)).unwrap_or(false) {
+                model.remove(id);
+            }
+        }
+        Rpc::BatchDeleteIds { ids, ns, .. } => {
+            for id in ids {
+                if model.get(id).map(|(d, _)| sel(ns, d)).unwrap_or(false) {
+                    model.remove(id);
+                }
+            }
+        }
+        Rpc::BatchDeleteFilter { ns, .. } => {
+            // the only filter in this alphabet matches every document of the tenant
+            model.retain(|_, (d, _)| !sel(ns, d));
+        }
+        _ => {}
+    }
+}
+
+/// Probe the selector x id grid; returns the first discrepancy.
+fn ns_probe(rt: &tokio::runtime::Runtime, srv: &Srv, model: &NsModel, calls: &mut u64) -> Option<(String, String)> {
+    let t = 0usize;
+    for sel in ["", "n", "m", "stolen"] {
+        let want: BTreeSet<u64> = model.iter().filter(|(_, (d, _))| sel.is_empty() || d == sel).map(|(id, _)| *id).collect();
+        for id in [1u64, 2] {
+            *calls += 1;
+            let r = rt.block_on(call(srv, &Rpc::Query { t, id, emb: false, ns: sel.into() }));
+            let found = r.get("found").and_then(|x| x.as_bool()).unwrap_or(false);
+            if found != want.contains(&id) {
+                return Some((if found { "namespace-selector-matches-foreign-document" } else { "namespace-selector-misses-own-document" }.into(), format!("Query(id {id}, namespace {sel:?}): found={found}, model: document namespaces {:?}", model.iter().map(|(i, (d, _))| (*i, d.clone())).collect::<Vec<_>>())));
+            }
+            if found {
+                let got: BTreeMap<String, String> = r["metadata"].as_array().map(|a| a.iter().filter_map(|kv| Some((kv.get(0)?.as_str()?.to_string(), kv.get(1)?.as_str()?.to_string()))).collect()).unwrap_or_default();
+                if let Some(k) = got.keys().find(|k| RESERVED.contains(&k.as_str())) {
+                    return Some(("reserved-key-visible".into(), format!("Query(id {id}, namespace {sel:?}) returned reserved key {k}")));
+                }
+                if got != model[&id].1 {
+                    return Some(("metadata-differs-from-model".into(), format!("Query(id {id}, namespace {sel:?}) metadata {got:?}, model {:?}", model[&id].1)));
+                }
+            }
+        }
+        *calls += 1;
+        let r = rt.block_on(call(srv, &Rpc::BulkQuery { t, ids: vec![1, 2], emb: false, ns: sel.into() }));
+        if let Some(items) = r["results"].as_array() {
+            for (i, it) in items.iter().enumerate() {
+                let id = [1u64, 2][i.min(1)];
+                let found = it.get("found").and_then(|x| x.as_bool()).unwrap_or(false);
+                if found != want.contains(&id) {
+                    return Some((if found { "namespace-selector-matches-foreign-document" } else { "namespace-selector-misses-own-document" }.into(), format!("BulkQuery([1,2], namespace {sel:?}) item {i}: found={found}, model namespaces {:?}", model.iter().map(|(i, (d, _))| (*i, d.clone())).collect::<Vec<_>>())));
+                }
+            }
+        }
+        *calls += 1;
+        let r = rt.block_on(call(srv, &Rpc::Search { t, q: vec![0.6, 0.8], k: 10, ns: sel.into(), flt: Flt::None, legacy: vec![], emb: false, ef: 0 }));
+        if let Some(items) = r["results"].as_array() {
+            let got: BTreeSet<u64> = items.iter().filter_map(|x| x["doc_id"].as_u64()).collect();
+            if got != want {
+                let foreign = got.iter().any(|g| !want.contains(g));
+                return Some((if foreign { "namespace-selector-matches-foreign-document" } else { "namespace-selector-misses-own-document" }.into(), format!("Search(namespace {sel:?}) returned ids {got:?}, model says {want:?}")));
+            }
+            let mut bad = Vec::new();
+            scan_reserved_and_ids(&r, &mut bad);
+            if let Some(b) = bad.first() {
+                return Some(("reserved-key-visible".into(), format!("Search(namespace {sel:?}): {b}")));
+            }
+        }
+    }
+    None
+}
+
+pub fn ns_check_sequence(rt: &tokio::runtime::Runtime, c: &DriverCfg, seq: &[Rpc], st: &mut Stats) {
+    let srv = build(c);
+    let mut model = NsModel::new();
+    st.sequences += 1;
+    for (i, r) in seq.iter().enumerate() {
+        st.calls += 1;
+        let resp = rt.block_on(call(&srv, r));
+        if resp.get("status").is_some() {
+            st.viol.push((format!("C10|namespace|write-refused|{}", rpc_kind(r)), json!({"engine":"srvmc","check":"C10","section":"namespace","cfg":c,"sequence":seq,"detail":format!("step {i}: {resp}")})));
+            return;
+        }
+        ns_apply(&mut model, r);
+        let mut calls = 0u64;
+        let bad = ns_probe(rt, &srv, &model, &mut calls);
+        st.calls += calls;
+        st.compared += calls;
+        if let Some((sym, detail)) = bad {
+            st.viol.push((format!("C10|namespace|{sym}|after-{}", rpc_kind(r)), json!({"engine":"srvmc","check":"C10","section":"namespace","cfg":c,"sequence":seq,"detail":format!("after step {i} ({}): {detail}", rpc_kind(r))})));
+            return;
+        }
+    }
 }
 
 pub fn run(tier: &str, replay: Option<&str>) -> i32 {
@@ -427,7 +603,11 @@ pub fn run(tier: &str, replay: Option<&str>) -> i32 {
         let rt = tokio::runtime::Builder::new_multi_thread().worker_threads(1).enable_all().build().unwrap();
         let mut st = Stats::default();
         let mut memo = HashMap::new();
-        check_sequence(&rt, &c, &seq, &mut memo, &mut st);
+        if v["case"]["section"] == "namespace" {
+            ns_check_sequence(&rt, &c, &seq, &mut st);
+        } else {
+            check_sequence(&rt, &c, &seq, &mut memo, &mut st);
+        }
         if let Some((s, r)) = st.viol.any_first() {
             println!("replay: reproduced {s}: {}", r["detail"]);
             println!("VIOLATION property=C10 replay={p}");
@@ -446,7 +626,7 @@ pub fn run(tier: &str, replay: Option<&str>) -> i32 {
     let mut tot: BTreeMap<&str, u64> = BTreeMap::new();
     let mut states: BTreeSet<u64> = BTreeSet::new();
     for r in &res {
-        for k in ["sequences", "calls", "projections", "compared", "interfering", "tie_swaps"] {
+        for k in ["sequences", "calls", "projections", "compared", "interfering", "tie_swaps", "ns_sequences"] {
             *tot.entry(k).or_insert(0) += r[k].as_u64().unwrap_or(0);
         }
         for s in r["states"].as_array().unwrap() {
@@ -462,6 +642,8 @@ pub fn run(tier: &str, replay: Option<&str>) -> i32 {
     ev.set("evaluations", tot["sequences"]);
     ev.set("distinct_nontrivial", tot["compared"]);
     ev.set("rule", format!("all {n}^{depth} sequences over a {n}-letter alphabet (23 RPC forms x 2 tenants: Insert incl. spoofed reserved keys and namespace, BulkInsert, BulkLoadHnsw, Query, BulkQuery, Search with k 1/2, namespace, hostile filters naming the other tenant's reserved key / NOT / OR / legacy metadata_filters, BulkSearch, UpdateMetadata merge and replace-with-spoof, Delete, BatchDelete by ids and by filters that match everything or name the other tenant, FlushHotTier) on the real in-process handlers with auth on, colliding local ids {{1,2}} and identical vectors, from the empty server and (depth 2, thorough 3) from a populated one (both tenants hold ids 1,2, drained, one cached search each); oracle: for each tenant, its responses must be identical when the other tenant's requests are deleted from the sequence (projection run on a fresh server), plus no reserved key and no global id in any response, per-tenant /usage unchanged by the other tenant, scope=all refused to non-admin, request without tenant context refused; plus every sequence of <= 3 server starts over 8 API-key sets (multi-key tenants, tenants added later) through the real TenantIdMapper: indices injective and stable. states = distinct response vectors; non-trivial = observer responses compared against a projection"));
+    ev.set("namespace_section", json!({"sequences": tot["ns_sequences"], "alphabet": ns_alphabet().len(), "depth": if tier == "thorough" { 4 } else { 3 },
+        "rule": "one tenant; every sequence over 16 write letters (Insert / BulkInsert / BulkLoadHnsw that move ids 1,2 between namespaces '', 'n', 'm' while spoofing __namespace__ / __tenant_idx__ in the metadata, UpdateMetadata merge / replace / replace-with-empty carrying a spoofed __namespace__ on documents with and without a namespace, UpdateMetadata / Delete / BatchDelete(ids) / BatchDelete(filter) with a namespace selector, FlushHotTier); after every step Query and BulkQuery for ids {1,2} and Search under selectors {'', 'n', 'm', 'stolen'} must match exactly the documents whose LAST WRITE carried that namespace (reference model), return the model's user metadata, and show no reserved key"}));
     ev.set("samples", json!([alphabet()[1], alphabet()[11], alphabet()[21]]));
     ev.set("exhaustive", true);
     ev.set("projection_runs", tot["projections"]);
